@@ -14,6 +14,31 @@ type fsFile struct {
 	data  Str
 	isDir bool
 	ino   uint64
+	link  string // symbolic link: absolute target path
+}
+
+// fsResolve follows symbolic links in every component of name (the last one too when followLast).
+func (it *Interp) fsResolve(name string, followLast bool) string {
+	name = path.Clean(name)
+	for hops := 0; hops < 16; hops++ {
+		changed := false
+		parts := strings.Split(strings.TrimPrefix(name, "/"), "/")
+		cur := ""
+		for i, c := range parts {
+			cur += "/" + c
+			last := i == len(parts)-1
+			if f, ok := it.fsFiles[cur]; ok && f.link != "" && (!last || followLast) {
+				rest := strings.Join(parts[i+1:], "/")
+				name = path.Clean(f.link + "/" + rest)
+				changed = true
+				break
+			}
+		}
+		if !changed {
+			return name
+		}
+	}
+	return name
 }
 
 type openFile struct {
@@ -22,8 +47,10 @@ type openFile struct {
 	pos  int
 }
 
-func (it *Interp) fsLookup(name string) *fsFile {
-	name = path.Clean(name)
+func (it *Interp) fsLookup(name string) *fsFile { return it.fsLookupL(name, true) }
+
+func (it *Interp) fsLookupL(name string, followLast bool) *fsFile {
+	name = it.fsResolve(name, followLast)
 	if f, ok := it.fsFiles[name]; ok {
 		return f
 	}
@@ -90,6 +117,9 @@ func (it *Interp) fileInfo(name string, f *fsFile) Value {
 			m := uint64(0o644)
 			if f.isDir {
 				m = 1<<31 | 0o755
+			}
+			if f.link != "" {
+				m = 1<<27 | 0o777 // ModeSymlink (only Lstat reports the link itself)
 			}
 			st[i] = it.tt.Const(32, m)
 		case "sys":
@@ -164,7 +194,32 @@ func init() {
 		return Tuple{it.fileInfo(name, f), Iface{}}
 	}
 	reg("os.Stat", stat)
-	reg("os.Lstat", stat)
+	reg("os.Lstat", func(fr *frame, args []Value) Value {
+		it := fr.it
+		name := it.pathArg(args[0])
+		f := it.fsLookupL(name, false)
+		if f == nil {
+			return Tuple{Iface{}, it.notExistErr(fr, "lstat", name)}
+		}
+		return Tuple{it.fileInfo(name, f), Iface{}}
+	})
+	reg("os.Readlink", func(fr *frame, args []Value) Value {
+		it := fr.it
+		name := it.pathArg(args[0])
+		f := it.fsLookupL(name, false)
+		if f == nil || f.link == "" {
+			return Tuple{it.mkStr(""), it.notExistErr(fr, "readlink", name)}
+		}
+		return Tuple{it.mkStr(f.link), Iface{}}
+	})
+	reg(rtPkg+"FSSymlink", func(fr *frame, args []Value) Value {
+		it := fr.it
+		if it.fsFiles == nil {
+			it.fsFiles = map[string]*fsFile{}
+		}
+		it.fsFiles[it.pathArg(args[0])] = &fsFile{link: it.pathArg(args[1]), ino: uint64(10 + len(it.fsFiles))}
+		return nil
+	})
 	readFile := func(fr *frame, args []Value) Value {
 		it := fr.it
 		name := it.pathArg(args[0])
